@@ -387,6 +387,282 @@ theorem checkEmptyName_rel (container : String) {n' n : Text} (h : TextSim cs.uw
   · exact perr_rel _ rfl
   · exact Rel.pure (α := α) (A := fun _ _ => True) trivial
 
+omit hu hts in
+theorem LRel.find?_rel {β γ : Type} {R : β → γ → Prop} {p : β → Bool} {q : γ → Bool} (hp : PredAgree R p q)
+    {l : List β} {m : List γ} (h : LRel R l m) : OptRel R (l.find? p) (m.find? q) := by
+  induction h with
+  | nil => exact OptRel.none_none
+  | cons h1 _ ih =>
+    simp only [List.find?_cons, hp _ _ h1]
+    split
+    · exact OptRel.some_some h1
+    · exact ih
+
+theorem ingredientP_rel : Rel cs ts' ts (ingredientP (α := α)) ingredientP (OptRel (EvSim cs.uws)) := by
+  unfold ingredientP
+  refine Rel.bind currentOffset_rel fun st' st _ => ?_
+  refine Rel.bind (consumeK_rel hts _) fun a' a ha => ?_
+  rcases ha.elim with ⟨rfl, rfl⟩ | ⟨a', a, rfl, rfl, ha⟩
+  · exact Rel.pure (α := α) OptRel.none_none
+  dsimp only
+  refine Rel.bind currentOffset_rel fun mp' mp _ => ?_
+  refine Rel.bind (modifiersP_rel hu hts) fun mt' mt hmt => ?_
+  refine Rel.bind currentOffset_rel fun no' no _ => ?_
+  refine Rel.bind (compBody_rel hu hts) fun b' b hb => ?_
+  rcases hb.elim with ⟨rfl, rfl⟩ | ⟨b', b, rfl, rfl, hb⟩
+  · exact Rel.pure (α := α) OptRel.none_none
+  dsimp only
+  refine Rel.bind (noteP_rel hu hts) fun n' n hn => ?_
+  refine Rel.bind currentOffset_rel fun sp' sp _ => ?_
+  refine Rel.bind (parseAlias_rel hu hts _ hb.name _ _) fun na' na hna => ?_
+  obtain ⟨name', alias'⟩ := na'
+  obtain ⟨name, alias⟩ := na
+  dsimp only
+  refine Rel.bind (checkEmptyName_rel hu hts _ hna.1) fun _ _ _ => ?_
+  refine Rel.bind (parseModifiers_rel hu hts hmt _ _) fun pm' pm hpm => ?_
+  refine Rel.bind (A := OptRel (LocSim (PQuantitySim cs.uws))) ?_ ?_
+  · rcases hb.quantity.elim with ⟨e', e⟩ | ⟨q', q, e', e, hq⟩
+    · rw [e', e]; exact Rel.pure (α := α) OptRel.none_none
+    · rw [e', e]
+      dsimp only
+      exact Rel.bind (parseQuantity_rel hu hq) fun r' r hr => Rel.pure (α := α) (OptRel.some_some hr)
+  · intro q' q hq
+    exact Rel.pure (α := α) (OptRel.some_some (EvSim.mk_ingredient ⟨hpm.1, hpm.2, hna.1, hna.2, hq, hn⟩))
+
+theorem cookwareP_rel : Rel cs ts' ts (cookwareP (α := α)) cookwareP (OptRel (EvSim cs.uws)) := by
+  unfold cookwareP
+  refine Rel.bind currentOffset_rel fun st' st _ => ?_
+  refine Rel.bind (consumeK_rel hts _) fun a' a ha => ?_
+  rcases ha.elim with ⟨rfl, rfl⟩ | ⟨a', a, rfl, rfl, ha⟩
+  · exact Rel.pure (α := α) OptRel.none_none
+  dsimp only
+  refine Rel.bind currentOffset_rel fun mp' mp _ => ?_
+  refine Rel.bind (modifiersP_rel hu hts) fun mt' mt hmt => ?_
+  refine Rel.bind currentOffset_rel fun no' no _ => ?_
+  refine Rel.bind (compBody_rel hu hts) fun b' b hb => ?_
+  rcases hb.elim with ⟨rfl, rfl⟩ | ⟨b', b, rfl, rfl, hb⟩
+  · exact Rel.pure (α := α) OptRel.none_none
+  dsimp only
+  refine Rel.bind (noteP_rel hu hts) fun n' n hn => ?_
+  refine Rel.bind currentOffset_rel fun sp' sp _ => ?_
+  refine Rel.bind (parseAlias_rel hu hts _ hb.name _ _) fun na' na hna => ?_
+  obtain ⟨name', alias'⟩ := na'
+  obtain ⟨name, alias⟩ := na
+  dsimp only
+  refine Rel.bind (checkEmptyName_rel hu hts _ hna.1) fun _ _ _ => ?_
+  refine Rel.bind (A := OptRel (LocSim PQValueSim)) ?_ ?_
+  · rcases hb.quantity.elim with ⟨e', e⟩ | ⟨q', q, e', e, hq⟩
+    · rw [e', e]; exact Rel.pure (α := α) OptRel.none_none
+    · rw [e', e]
+      dsimp only
+      refine Rel.bind (parseQuantity_rel hu hq) fun r' r hr => ?_
+      have hres : OptRel (LocSim (PQValueSim (α := α)))
+          (some ⟨r'.quantity.val.value, r'.quantity.span⟩) (some ⟨r.quantity.val.value, r.quantity.span⟩) :=
+        OptRel.some_some hr.1
+      rcases hr.2.elim with ⟨e', e⟩ | ⟨u', u, e', e, huu⟩
+      · rw [e', e]; exact Rel.pure (α := α) hres
+      · rw [e', e]
+        dsimp only
+        exact Rel.bind (perr_rel _ rfl) fun _ _ _ => Rel.pure (α := α) hres
+  · intro q' q hq
+    refine Rel.bind (parseModifiers_rel hu hts hmt _ _) fun pm' pm hpm => ?_
+    have hres : OptRel (EvSim (α := α) cs.uws)
+        (some (.cookware ⟨⟨pm'.flags, name', alias', q', n'⟩, ⟨st', sp'⟩⟩))
+        (some (.cookware ⟨⟨pm.flags, name, alias, q, n⟩, ⟨st, sp⟩⟩)) :=
+      OptRel.some_some (EvSim.mk_cookware ⟨hpm.1, hna.1, hna.2, hq, hn⟩)
+    have hrecipe : Rel (α := α) cs ts' ts
+        (if pm'.flags.val.contains Modifiers.RECIPE = true then
+          match List.find? (fun t => t.kind == TK.at) mt' with
+          | some t => do
+            perr "cookware-recipe-modifier" [{ start := t.start, stop := t.stop }]
+            pure (some (Ev.cookware (α := α) ⟨⟨pm'.flags, name', alias', q', n'⟩, ⟨st', sp'⟩⟩))
+          | none => do
+            panicWith "no recipe token in modifiers with recipe"
+            pure (some (Ev.cookware ⟨⟨pm'.flags, name', alias', q', n'⟩, ⟨st', sp'⟩⟩))
+        else pure (some (Ev.cookware ⟨⟨pm'.flags, name', alias', q', n'⟩, ⟨st', sp'⟩⟩)))
+        (if pm.flags.val.contains Modifiers.RECIPE = true then
+          match List.find? (fun t => t.kind == TK.at) mt with
+          | some t => do
+            perr "cookware-recipe-modifier" [{ start := t.start, stop := t.stop }]
+            pure (some (Ev.cookware (α := α) ⟨⟨pm.flags, name, alias, q, n⟩, ⟨st, sp⟩⟩))
+          | none => do
+            panicWith "no recipe token in modifiers with recipe"
+            pure (some (Ev.cookware ⟨⟨pm.flags, name, alias, q, n⟩, ⟨st, sp⟩⟩))
+        else pure (some (Ev.cookware ⟨⟨pm.flags, name, alias, q, n⟩, ⟨st, sp⟩⟩)))
+        (OptRel (EvSim cs.uws)) := by
+      rw [hpm.1]
+      split
+      · have hfind := LRel.find?_rel (tokSim_kindPres.agree (fun k => k == .at)) hmt
+        rcases hfind.elim with ⟨e', e⟩ | ⟨t', t, e', e, ht⟩
+        · rw [e', e]
+          exact Rel.bind (panicWith_rel _ _) fun _ _ _ => Rel.pure (α := α) hres
+        · rw [e', e]
+          exact Rel.bind (perr_rel _ rfl) fun _ _ _ => Rel.pure (α := α) hres
+      · exact Rel.pure (α := α) hres
+    rcases hpm.2.elim with ⟨e', e⟩ | ⟨d', d, e', e, hd⟩
+    · rw [e', e]; exact hrecipe
+    · rw [e', e]; exact Rel.bind (perr_rel _ rfl) fun _ _ _ => hrecipe
+
+theorem checkNoteTimer_rel : Rel cs ts' ts (checkNoteTimer (α := α)) checkNoteTimer (fun _ _ => True) := by
+  unfold checkNoteTimer
+  refine Rel.bind (A := OptRel (fun _ _ => True)) (withRecover_rel ?_) fun _ _ _ =>
+    Rel.pure (α := α) (A := fun _ _ => True) trivial
+  refine Rel.bind (consumeK_rel hts _) fun o' o ho => ?_
+  rcases ho.elim with ⟨rfl, rfl⟩ | ⟨o', o, rfl, rfl, ho⟩
+  · exact Rel.pure (α := α) OptRel.none_none
+  dsimp only
+  refine Rel.bind (untilK_rel hts _) fun q' q hq => ?_
+  rcases hq.elim with ⟨rfl, rfl⟩ | ⟨q', q, rfl, rfl, hq⟩
+  · exact Rel.pure (α := α) OptRel.none_none
+  dsimp only
+  refine Rel.bind (bump_rel hts _) fun _ _ _ => ?_
+  exact Rel.bind (pwarn_rel _ rfl) fun _ _ _ => Rel.pure (α := α) OptRel.none_none
+
+/-- `timer` after the body: the checks and the assembly of the event -/
+def timerTail (start stop nameOffset : Nat) (mtoks : List Tok) (body : Body) : P α (Option (Ev α)) := do
+  checkNoteTimer
+  let name ← bpText nameOffset body.name
+  let cs := (← get).cs
+  let mut quantity : Option (Loc (PQuantity α)) ← (match body.quantity with
+    | some qt => do
+      let q ← parseQuantity qt
+      if q.quantity.val.unit.isNone then
+        perr "timer-missing-unit" [Span.pos q.quantity.val.value.value.span.stop]
+      pure (some q.quantity)
+    | none => pure none)
+  if quantity.isNone && (← hasExt Gen.EXT_TIMER_REQUIRES_TIME) then
+    let span := body.close.getD (Span.pos name.span.stop)
+    perr "timer-missing-quantity" [span]
+    quantity := some recoverPQuantity
+  let nameO := if name.isTextEmpty cs then none else some name
+  if nameO.isNone && quantity.isNone then
+    let span : Span := match body.close with
+      | some s => ⟨nameOffset, s.stop⟩
+      | none => Span.pos nameOffset
+    perr "timer-neither-name-nor-quantity" [span]
+    quantity := some recoverPQuantity
+  return some (.timer ⟨⟨nameO, quantity⟩, ⟨start, stop⟩⟩)
+
+omit hu hts in
+theorem timerP_eq : timerP (α := α) = (do
+    let start ← currentOffset
+    match ← consumeK .tilde with
+    | none => return none
+    | some _ =>
+      let mtoks ← modifiersP
+      let nameOffset ← currentOffset
+      match ← compBody with
+      | none => return none
+      | some body =>
+        let stop ← currentOffset
+        if !mtoks.isEmpty then perr "modifiers-not-allowed:timer" [tokensSpan mtoks]
+        if ← hasExt Gen.EXT_COMPONENT_ALIAS then
+          match body.name.findIdx? (fun t => t.kind == .or) with
+          | some i =>
+            let sep := (body.name[i]?).getD dummyTok
+            perr "alias-not-allowed:timer" [⟨sep.start, ((body.name.getLast?).getD sep).stop⟩]
+          | none => pure ()
+        timerTail start stop nameOffset mtoks body) := by
+  unfold timerP timerTail
+  rfl
+
+theorem timerTail_rel (st' st sp' sp no' no : Nat) {mt' mt : List Tok} {b' b : Body} (hb : BodySim b' b) :
+    Rel cs ts' ts (timerTail (α := α) st' sp' no' mt' b') (timerTail st sp no mt b) (OptRel (EvSim cs.uws)) := by
+  unfold timerTail
+  refine Rel.bind (checkNoteTimer_rel hu hts) fun _ _ _ => ?_
+  refine Rel.bind (bpText_rel hu hb.name _ _) fun n' n hn => ?_
+  refine Rel.bind Rel.get fun g' g hg => ?_
+  refine Rel.bind (A := OptRel (LocSim (PQuantitySim cs.uws))) ?_ ?_
+  · rcases hb.quantity.elim with ⟨e', e⟩ | ⟨q', q, e', e, hq⟩
+    · rw [e', e]; exact Rel.pure (α := α) OptRel.none_none
+    · rw [e', e]
+      dsimp only
+      refine Rel.bind (parseQuantity_rel hu hq) fun r' r hr => ?_
+      have hres : OptRel (LocSim (PQuantitySim (α := α) cs.uws)) (some r'.quantity) (some r.quantity) :=
+        OptRel.some_some hr
+      rw [hr.2.isNone]
+      split
+      · exact Rel.bind (perr_rel _ rfl) fun _ _ _ => Rel.pure (α := α) hres
+      · exact Rel.pure (α := α) hres
+  · intro q' q hq
+    refine Rel.bind (hasExt_rel _) fun x' x hx => ?_
+    subst hx
+    have hnameO : OptRel (TextSim cs.uws) (if n'.isTextEmpty g'.cs then none else some n')
+        (if n.isTextEmpty g.cs then none else some n) := by
+      rw [hg.csL, hg.csR, hn.isTextEmpty]
+      split
+      · exact OptRel.none_none
+      · exact OptRel.some_some hn
+    have hrec : OptRel (LocSim (PQuantitySim (α := α) cs.uws)) (some recoverPQuantity) (some recoverPQuantity) :=
+      OptRel.some_some ⟨⟨rfl, rfl⟩, OptRel.none_none⟩
+    dsimp only
+    generalize (if Text.isTextEmpty g'.cs n' = true then none else some n') = nameO' at hnameO ⊢
+    generalize (if Text.isTextEmpty g.cs n = true then none else some n) = nameO at hnameO ⊢
+    have hfin : ∀ {Q' Q : Option (Loc (PQuantity α))}, OptRel (LocSim (PQuantitySim cs.uws)) Q' Q →
+        OptRel (EvSim cs.uws) (some (Ev.timer ⟨⟨nameO', Q'⟩, ⟨st', sp'⟩⟩)) (some (Ev.timer ⟨⟨nameO, Q⟩, ⟨st, sp⟩⟩)) :=
+      fun h => OptRel.some_some (EvSim.mk_timer ⟨hnameO, h⟩)
+    rw [hq.isNone, hnameO.isNone]
+    split
+    · refine Rel.bind (perr_rel _ rfl) fun _ _ _ => ?_
+      split
+      · exact Rel.bind (perr_rel _ rfl) fun _ _ _ => Rel.pure (α := α) (hfin hrec)
+      · exact Rel.pure (α := α) (hfin hrec)
+    · split
+      · exact Rel.bind (perr_rel _ rfl) fun _ _ _ => Rel.pure (α := α) (hfin hrec)
+      · exact Rel.pure (α := α) (hfin hq)
+
+theorem timerP_rel : Rel cs ts' ts (timerP (α := α)) timerP (OptRel (EvSim cs.uws)) := by
+  rw [timerP_eq]
+  refine Rel.bind currentOffset_rel fun st' st _ => ?_
+  refine Rel.bind (consumeK_rel hts _) fun a' a ha => ?_
+  rcases ha.elim with ⟨rfl, rfl⟩ | ⟨a', a, rfl, rfl, ha⟩
+  · exact Rel.pure (α := α) OptRel.none_none
+  dsimp only
+  refine Rel.bind (modifiersP_rel hu hts) fun mt' mt hmt => ?_
+  refine Rel.bind currentOffset_rel fun no' no _ => ?_
+  refine Rel.bind (compBody_rel hu hts) fun b' b hb => ?_
+  rcases hb.elim with ⟨rfl, rfl⟩ | ⟨b', b, rfl, rfl, hb⟩
+  · exact Rel.pure (α := α) OptRel.none_none
+  dsimp only
+  refine Rel.bind currentOffset_rel fun sp' sp _ => ?_
+  have htail := timerTail_rel (α := α) hu hts st' st sp' sp no' no (mt' := mt') (mt := mt) hb
+  have halias : Rel cs ts' ts
+      (do
+        let x ← hasExt (α := α) Gen.EXT_COMPONENT_ALIAS
+        if x = true then
+          match List.findIdx? (fun t => t.kind == TK.or) b'.name with
+          | some i => do
+            perr "alias-not-allowed:timer"
+                [{ start := (b'.name[i]?.getD dummyTok).start,
+                    stop := (b'.name.getLast?.getD (b'.name[i]?.getD dummyTok)).stop }]
+            timerTail st' sp' no' mt' b'
+          | none => timerTail st' sp' no' mt' b'
+        else timerTail st' sp' no' mt' b')
+      (do
+        let x ← hasExt (α := α) Gen.EXT_COMPONENT_ALIAS
+        if x = true then
+          match List.findIdx? (fun t => t.kind == TK.or) b.name with
+          | some i => do
+            perr "alias-not-allowed:timer"
+                [{ start := (b.name[i]?.getD dummyTok).start,
+                    stop := (b.name.getLast?.getD (b.name[i]?.getD dummyTok)).stop }]
+            timerTail st sp no mt b
+          | none => timerTail st sp no mt b
+        else timerTail st sp no mt b)
+      (OptRel (EvSim cs.uws)) := by
+    refine Rel.bind (hasExt_rel _) fun x' x hx => ?_
+    subst hx
+    split
+    · rw [hb.name.findIdx? (tokSim_kindPres.agree (fun k => k == .or))]
+      cases List.findIdx? (fun t => t.kind == TK.or) b.name with
+      | none => exact htail
+      | some i => exact Rel.bind (perr_rel _ rfl) fun _ _ _ => htail
+    · exact htail
+  rw [hmt.isEmpty]
+  split
+  · exact Rel.bind (perr_rel _ rfl) fun _ _ _ => halias
+  · exact halias
+
 end rel
 
 end Cook
